@@ -105,6 +105,10 @@ pub fn run(a: &Args) -> Report {
         if !ok {
             continue;
         }
+        if base.num_tuples() > 1500 {
+            rep.count("programs_skipped_large_db", 1);
+            continue;
+        }
         let all_safe = g.ruleset_safe.iter().all(|x| *x);
         let r0 = sig.rulesets[0].clone();
         let r1 = sig.rulesets[sig.rulesets.len() - 1].clone();
